@@ -470,7 +470,7 @@ VALUES_BAD = [True, False, None, float("nan"), float("inf"), float("-inf"), b"x"
               FloatSub(float("inf")), FloatSub(float("-inf")), FloatSub(float("nan")), Limits.UNBOUNDED, Limits.NEG, memoryview(b"z"), [b"x"], {"k": "v"}, 1j]
 
 # numerically equal values of different kinds must each render by their own str(): 7 / 7.0 / IntSub(7), 0.0 / -0.0, 1 / True-like enums
-VALUES_OK = [0, -1, 10**30, 1.5, -0.0, 0.0, 1e100, 0.1, Color.RED, Color.BIG, 7, 7.0, IntSub(7), FloatSub(7.0), IntSub(0), 1, 1.0, IntSub(1), 1000, 1e3, 2**64, 1e16, 1.7e18, -2.5e300, 1e-7]
+VALUES_OK = [10**400, -(10**400), 2**1024, 2**1024 - 1, IntSub(10**400), 0, -1, 10**30, 1.5, -0.0, 0.0, 1e100, 0.1, Color.RED, Color.BIG, 7, 7.0, IntSub(7), FloatSub(7.0), IntSub(0), 1, 1.0, IntSub(1), 1000, 1e3, 2**64, 1e16, 1.7e18, -2.5e300, 1e-7]
 
 
 def run_random(ctx):
